@@ -2,6 +2,7 @@
 import gc
 import itertools
 import sys
+import threading
 import weakref
 
 from hypothesis import strategies as st
@@ -14,10 +15,13 @@ ID = 'C09'
 LEVEL = 'exploration'
 RULE = ('request kinds (vlib/site.py): ok (sets cookie, header, status from its query), ok with JSON Accept, HEAD, 404 (HTML and JSON), 405, undecodable path, '
         'malformed chunked body, oversized body, unterminated multipart, well-formed multipart form with a per-request boundary, invalid JSON, handler crash after '
-        'setting a header and a cookie, raised HTTPResponse with header and cookie, generator body, cookie-then-abort(403); every request is a function of (kind, n). '
+        'setting a header and a cookie, raised HTTPResponse with header and cookie, generator body, cookie-then-abort(403), every verb (HEAD, refused ones) on routes registered for GET only, '
+        'standard and made-up verbs on a route registered for ANY, bodies of several sizes beyond max_memfile_size (plain and chunked) whose handler reads request.body to EOF and reports length / digest / both ends; '
+        'every request is a function of (kind, n). '
         'Histories: operation lists of 2-30 requests generated as one shrinkable value, plus EVERY ordered pair of kinds exhaustively, plus every ordered triple '
-        'whose middle element is an error kind (thorough). Oracle: response k of the history (status line, header multiset, body) == response of the same request '
-        'on a fresh application; references are computed before the application under test is created, those of the exhaustive pairs / triples in fresh interpreter processes (one request per process). Retention: environ objects (dict subclass) and input '
+        'whose middle element is an error kind (thorough), plus walks over one kind with n running up and down (every verb before and after every other on the same route; spilled bodies of falling and rising size, '
+        'with in-memory bodies and forms in between). Oracle: response k of the history (status line, header multiset, body) == response of the same request '
+        'on a fresh application; references are computed before the application under test is created, a second set on fresh threads (one thread per request, so that per-thread state shared by applications cannot reach them; response must equal both), those of the exhaustive pairs / triples in fresh interpreter processes (one request per process). Retention: environ objects (dict subclass) and input '
         'streams are weak-referenced; after N = 160 and N = 400 requests of one kind (and mixed) plus gc.collect() at most 10 are alive (the last request of the thread plus the last failing request referenced by each of the three shared error objects), the number does not grow between the two points, and the number of gc-tracked '
         'objects has not grown by more than 40 between N = 160 and N = 400 (300 and 2000 in thorough; N1 lies beyond the 128-entry urlsplit cache of the standard library). Non-trivial = consecutive requests of different kinds where the '
         'earlier one left state (cookie / header / status / error); distinct ordered kind pairs covered are reported.')
@@ -46,6 +50,38 @@ def _app(cfg):
     return S.make_app(config={'errors_map': S.custom_errors()}) if cfg == 'custom' else S.make_app(private_errors=True)
 
 
+def _on_fresh_thread(fn):
+    # a fresh application on a fresh thread: per-thread state (thread-locals shared by all applications) starts empty, like in a fresh worker
+    out = []
+
+    def target():
+        try:
+            out.append((True, fn()))
+        except BaseException as e:          # noqa
+            out.append((False, e))
+    t = threading.Thread(target=target)
+    t.start()
+    t.join()
+    ok, v = out[0]
+    if not ok:
+        raise v
+    return v
+
+
+_THREAD_REFS = {}
+
+
+def thread_reference(kind, n, cfg=None):
+    # second reference: the same request served by a fresh application on a fresh thread (computed once per request: a request determines its response)
+    key = (kind, n, cfg)
+    if key not in _THREAD_REFS:
+        r = _on_fresh_thread(lambda: call_app(_app(cfg), S.make_env(kind, n)))
+        if r.escaped is not None:
+            raise CheckFailure(f'reference request {key} on a fresh application on a fresh thread raised {fmt_exc(r.escaped)}')
+        _THREAD_REFS[key] = triple(r)
+    return _THREAD_REFS[key]
+
+
 def reference(kind, n, cache, cfg=None):
     key = (kind, n) if not cfg else (kind, n, cfg)
     if key in _FRESH:
@@ -64,20 +100,39 @@ def check_history(ctx, case):
     cache = {}
     cfg = case.get('cfg')
     refs = [reference(k, n, cache, cfg) for k, n in hist]         # phase 1: fresh applications
+    trefs = [thread_reference(k, n, cfg) for k, n in hist]        # ... and fresh applications on fresh threads
     # phase 2: the application under test, created last; its error objects are its own (shared by all of ITS requests, which is the
     # mechanism under test) so that a case never depends on what earlier cases did to the process-wide DefaultConfig.errors_map
     app = _app(cfg)
     if cfg:
         ctx.count('history_on_application_with_configured_errors_map')
     prev = None
-    for i, ((kind, n), ref) in enumerate(zip(hist, refs)):
-        r = call_app(app, S.make_env(kind, n))
+    verbs_of_path, head_paths, biggest = {}, set(), 0
+    for i, ((kind, n), ref, tref) in enumerate(zip(hist, refs, trefs)):
+        env = S.make_env(kind, n)
+        # (what this request has in common with earlier ones of the history: counted, not judged)
+        verb, path, size = env['REQUEST_METHOD'], env['PATH_INFO'], len(env['wsgi.input'].getvalue())
+        if verbs_of_path.setdefault(path, {verb}) != {verb}:
+            ctx.count('path_asked_before_with_another_verb')
+        verbs_of_path[path].add(verb)
+        r = call_app(app, env)
+        if r.status and r.status.startswith('405') and path in head_paths:
+            ctx.count('refused_verb_after_HEAD_on_the_same_path')
+        if verb == 'HEAD' and r.status and r.status.startswith('2'):
+            head_paths.add(path)
+        if _MEMFILE < size < biggest and r.status and r.status.startswith('2'):
+            ctx.count('spilled_body_after_a_longer_spilled_body')
+        if r.status and r.status.startswith('2'):
+            biggest = max(biggest, size)
+        del env
         if r.escaped is not None:
             raise CheckFailure(f'request {i} {kind, n} after {hist[:i]} raised {fmt_exc(r.escaped)}')
         got = triple(r)
         if got != ref:
             diff = _diff(got, ref)
             raise CheckFailure(f'response {i} of the history {hist[:i + 1]} differs from the response of the same request {kind, n} on a fresh application:\n{diff}')
+        if got != tref:
+            raise CheckFailure(f'response {i} of the history {hist[:i + 1]} differs from the response of the same request {kind, n} on a fresh application served on a fresh thread:\n{_diff(got, tref)}')
         if prev is not None:
             ctx.count('consecutive_pairs')
             if prev != kind:
@@ -89,6 +144,7 @@ def check_history(ctx, case):
 
 
 _PAIRS = set()
+_MEMFILE = 160          # max_memfile_size of the site (vlib/site.py make_app)
 
 
 def _diff(got, ref):
@@ -196,6 +252,22 @@ def run(ctx):
         if a in ERR_BODY_KINDS or b in ERR_BODY_KINDS:
             ctx.guarded(check_history, {'history': [[a, 3], [b, 3], [a, 4], [b, 5], [a, 5]], 'cfg': 'custom'})
     ctx.count('exhaustive_ordered_pairs', len(pairs))
+    # walks: one kind whose requests differ in verb / route / body size with n, n running up and down (every value before and after every other),
+    # alone and with requests of other kinds (in-memory bodies, forms, other verbs on the same routes) in between
+    if ctx.shard == 0:
+        for kind, between in (('verb_on_get_route', ['ok', 'gen', 'header_case', 'wrongverb', 'head_ok']), ('verb_on_any_route', ['wrongverb', 'ok']),
+                              ('spilled_body', ['chunked_ok', 'emptybody', 'form', 'oversized', 'upload_headers', 'badchunk'])):
+            up = [[kind, n] for n in range(0, 22)]
+            down = up[::-1]
+            ctx.guarded(check_history, {'history': up + down})
+            ctx.guarded(check_history, {'history': down + up, 'cfg': 'custom'})
+            mixed = []
+            for j, step in enumerate(down + up):
+                mixed += [step, [between[j % len(between)], j % 41]]
+            ctx.guarded(check_history, {'history': mixed})
+            # n stepping by 3 and by 7 modulo 22: sizes / verbs in neither rising nor falling order
+            ctx.guarded(check_history, {'history': [[kind, (3 * j) % 22] for j in range(22)] + [[kind, (7 * j) % 22] for j in range(22)]})
+            ctx.count('walks_up_and_down_over_one_kind', 4)
     if ctx.tier == 'thorough':
         trip = [(a, e, b) for a in S.KINDS for e in ERROR_KINDS for b in S.KINDS]
         for a, e, b in trip[ctx.shard::max(1, ctx.nshards)]:
